@@ -15,11 +15,16 @@ CLAIMS = {
   "note": "Trusted: census::Inventory lists objects while alive; flock semantics. Not decided: dynamic races inside the inventory; equality of directory content with the committed set (values).",
   "technique": "guard-region (lock lifetime) analysis over MIR, who-may-call tables, table/enum agreement, provenance dataflow",
  },
+ "C05": {
+  "text": "Decides the mechanisms that make a searcher a snapshot of one whole commit: meta.json is read and every segment opened while the META_LOCK guard is alive (guard-region over MIR), SegmentReader::open is used on the search path only there; SegmentReader's fields cannot reach a Directory/Index/Segment/path (type reachability), so nothing is opened lazily; no API hands out mutable access to shared bytes; the only ArcSwap::store publishes the Ok value of create_searcher (built and warmed), inside the same mutex-guarded region as the meta read (monotone reloads).",
+  "note": "Trusted: arc_swap, census, flock. Not decided: value equality of answers over time; multi-process races beyond the META_LOCK region.",
+  "technique": "guard-region analysis, type reachability over ADT fields, signature scan, who-may-call tables, value back-trace",
+ },
 }
 NA = {
  "C13": "quantifies over values returned by arbitrary advance/seek programs on stateful iterators; failures are arithmetic; the only structural statement (wrapper forwarding) is not a necessary condition, so no sound static rule is in reach",
  "C14": "aggregation results are run-time numeric values (bucket arithmetic, float sums, sketches); structural parts are already enforced by derive and the compiler",
 }
 # properties not yet claimed (checks under construction) are listed as not applicable *for now*
-for _p, _why in {'C02': 'check under construction in this session (rules designed in DESIGN.md section 4; not yet registered)', 'C03': 'check under construction in this session (rules designed in DESIGN.md section 4; not yet registered)', 'C04': 'check under construction in this session (rules designed in DESIGN.md section 4; not yet registered)', 'C05': 'check under construction in this session (rules designed in DESIGN.md section 4; not yet registered)', 'C06': 'check under construction in this session (rules designed in DESIGN.md section 4; not yet registered)', 'C07': 'check under construction in this session (rules designed in DESIGN.md section 4; not yet registered)', 'C08': 'check under construction in this session (rules designed in DESIGN.md section 4; not yet registered)', 'C09': 'check under construction in this session (rules designed in DESIGN.md section 4; not yet registered)', 'C11': 'check under construction in this session (rules designed in DESIGN.md section 4; not yet registered)', 'C12': 'check under construction in this session (rules designed in DESIGN.md section 4; not yet registered)', 'C15': 'check under construction in this session (rules designed in DESIGN.md section 4; not yet registered)', 'C16': 'check under construction in this session (rules designed in DESIGN.md section 4; not yet registered)', 'C17': 'check under construction in this session (rules designed in DESIGN.md section 4; not yet registered)', 'C18': 'check under construction in this session (rules designed in DESIGN.md section 4; not yet registered)', 'C19': 'check under construction in this session (rules designed in DESIGN.md section 4; not yet registered)', }.items():
+for _p, _why in {'C02': 'check under construction in this session (rules designed in DESIGN.md section 4; not yet registered)', 'C03': 'check under construction in this session (rules designed in DESIGN.md section 4; not yet registered)', 'C04': 'check under construction in this session (rules designed in DESIGN.md section 4; not yet registered)', 'C06': 'check under construction in this session (rules designed in DESIGN.md section 4; not yet registered)', 'C07': 'check under construction in this session (rules designed in DESIGN.md section 4; not yet registered)', 'C08': 'check under construction in this session (rules designed in DESIGN.md section 4; not yet registered)', 'C09': 'check under construction in this session (rules designed in DESIGN.md section 4; not yet registered)', 'C11': 'check under construction in this session (rules designed in DESIGN.md section 4; not yet registered)', 'C12': 'check under construction in this session (rules designed in DESIGN.md section 4; not yet registered)', 'C15': 'check under construction in this session (rules designed in DESIGN.md section 4; not yet registered)', 'C16': 'check under construction in this session (rules designed in DESIGN.md section 4; not yet registered)', 'C17': 'check under construction in this session (rules designed in DESIGN.md section 4; not yet registered)', 'C18': 'check under construction in this session (rules designed in DESIGN.md section 4; not yet registered)', 'C19': 'check under construction in this session (rules designed in DESIGN.md section 4; not yet registered)', }.items():
     NA[_p] = _why
